@@ -13,4 +13,10 @@ PROPS = {
         "assumptions": ["Go strings are byte strings; for ... range decodes UTF-8"],
         "search": [(1001, "thorough")],
     },
+    "C15": {
+        "judge": "CDI.Judge15.judge15",
+        "trusted": ["byte-level modelling of Go's rune iteration; the k8s regular expressions are modelled by explicit matchers, corresponded against the real matcher through the verif export hook"],
+        "assumptions": ["Go map iteration order is irrelevant to the property: ParseAnnotations results are compared grouped per key and sorted"],
+        "search": [(1001, "thorough")],
+    },
 }
